@@ -1,11 +1,13 @@
 import Driver.Common
 import Driver.C12
 import Driver.C02
+import Driver.C20
 open Driver
 
 def machines : List (String × Machine × Machine) :=
   [("C12", C12.machine, C12.judge),
-   ("C02", C02.machine, C02.judge)]
+   ("C02", C02.machine, C02.judge),
+   ("C20", C20.machine, C20.judge)]
 
 def main (args : List String) : IO UInt32 := do
   match args with
